@@ -271,6 +271,9 @@ def compare_whole(calls, dist=None):
             continue
         if m.startswith("UNSUPPORTED") or m == "BADOP":
             d["whole_unsupported"] = d.get("whole_unsupported", 0) + 1
+            why = d.setdefault("whole_unsupported_why", {})
+            w = m[len("UNSUPPORTED"):].strip()[:60] or m
+            why[w] = why.get(w, 0) + 1
             continue
         d["whole_calls_compared"] = d.get("whole_calls_compared", 0) + 1
         if len(k.R["passes"]) > 1:
